@@ -93,6 +93,26 @@ func main() {
 		file := filepath.Base(in)
 		file = file[0 : len(file)-len(filepath.Ext(in))] // Remove extension.
 
-		os.WriteFile(filepath.Join(options.out, fmt.Sprintf("%s.%s", file, conv.Extension())), []byte(dump), 0777)
+		err = writeFile(filepath.Join(options.out, fmt.Sprintf("%s.%s", file, conv.Extension())), []byte(dump))
+
+		if err != nil {
+			panic(err)
+		}
 	}
+}
+
+// writeFile writes data to a temporary file next to path and renames it to path afterwards,
+// to make sure a failing write is reported and never leaves a partial output file behind.
+func writeFile(path string, data []byte) error {
+	tmpPath := path + ".tmp"
+	err := os.WriteFile(tmpPath, data, 0777)
+
+	if err == nil {
+		err = os.Rename(tmpPath, path)
+	}
+
+	if err != nil {
+		os.Remove(tmpPath)
+	}
+	return err
 }
